@@ -428,8 +428,61 @@ static void subnormal_fft_case(uint64_t m, int layout, int inverse, unsigned rep
   case_end(m >= 2);
 }
 
+// conversion tables whose constructor chooses between a fast kernel with a narrow window and a general one: the same table
+// parameters under native and generic dispatch, inputs at and just inside the declared bound |x/d| <= 2^overhead (and near ties);
+// the results must be equal except on exact ties. Which kernel is chosen is the library's business - the function is not.
+static void conversion_threshold_case(uint64_t m, unsigned ovh, int dexp, unsigned rep) {
+  if (!case_begin("cplx_to_tnx32@native~generic|table parameters around the fast kernel's window", "m=%" PRIu64 " log2overhead=%u divisor=2^%d rep=%u", m, ovh, dexp, rep)) return;
+  rng_t* r = crng();
+  const double d = ldexp(1.0, dexp), top = ldexp(1.0, (int)ovh);
+  double* x = malloc(2 * m * 8);
+  int32_t* o[2];
+  for (uint64_t i = 0; i < 2 * m; i++) {
+    double v;
+    switch (rng_u64(r) % 8) {
+      case 0: v = top; break;                                   // the bound itself
+      case 1: v = nextafter(top, 0); break;                     // one ulp inside
+      case 2: v = top - 0.5; break;
+      case 3: v = nextafter(top - 0.5, 0); break;
+      case 4: v = top - ldexp(rng_unit(r), -3); break;          // the last eighth below the bound
+      case 5: v = top / 2 + rng_unit(r); break;
+      case 6: v = (double)(rng_u64(r) % 1000) + 0.5 + ldexp(1.0, -20); break;
+      default: v = ldexp(rng_unit(r), (int)rng_range(r, -4, (int)ovh)); break;
+    }
+    if (v > top) v = top;
+    if (rng_u64(r) & 1) v = -v;
+    x[i] = v * d;
+  }
+  for (int cfg = 0; cfg < 2; cfg++) {
+    set_dispatch(cfg ? DISP_NATIVE : DISP_GENERIC);
+    CPLX_TO_TNX32_PRECOMP* t = new_cplx_to_tnx32_precomp((uint32_t)m, d, ovh);
+    set_dispatch(DISP_NATIVE);
+    o[cfg] = malloc(2 * m * 4 + 4);
+    cplx_to_tnx32(t, o[cfg], x);
+    free(t);
+  }
+  uint64_t bad = 0;
+  for (uint64_t i = 0; i < 2 * m; i++)
+    if (o[0][i] != o[1][i]) {
+      const uint64_t ci = i < m ? 2 * i : 2 * (i - m) + 1;
+      const double v = x[ci] / d * 4294967296.0;  // exact scalings
+      const uint32_t du = (uint32_t)o[0][i] - (uint32_t)o[1][i];
+      if ((v - floor(v)) == 0.5 && (du == 1 || du == 0xFFFFFFFFu)) continue;
+      if (bad++ < 2) viol("dispatch", "cplx_to_tnx32 (m=%" PRIu64 ", divisor 2^%d, log2overhead %u): x/d = %a converts to %d under generic-C dispatch and to %d under native dispatch", m, dexp, ovh, x[ci] / d, o[0][i], o[1][i]);
+    }
+  cnt("conversion_threshold_values", 2 * m);
+  sample("%" PRIu64 " values at and just inside |x/d| = 2^%u: both dispatch configurations agree", 2 * m, ovh);
+  free(x); free(o[0]); free(o[1]);
+  case_end(1);
+}
+
 void run_C07(void) {
   const int th = G.thorough;
+  for (unsigned ovh = 14; ovh <= 30; ovh++)
+    for (size_t mi = 0; mi < 3; mi++) {
+      static const uint64_t TM[] = {8, 64, 4};
+      for (unsigned rep = 0; rep < (th ? 12u : 2u); rep++) conversion_threshold_case(TM[mi], ovh, (int)((ovh + rep) % 5) - 1, rep);
+    }
   for (uint64_t m = 1; m <= 65536; m <<= 1)
     for (int v = 0; v < 4; v++)
       for (unsigned rep = 0; rep < (th ? 6u : 2u); rep++) subnormal_fft_case(m, v & 1, v >> 1, rep);
